@@ -128,6 +128,9 @@ func (c *Ctx) Trans(n int) {
 // Count adds to a named coverage counter.
 func (c *Ctx) Count(name string, n int) { c.mu.Lock(); c.p.Counters[name] += int64(n); c.mu.Unlock() }
 
+// Counter reads a named coverage counter of this worker.
+func (c *Ctx) Counter(name string) int64 { c.mu.Lock(); defer c.mu.Unlock(); return c.p.Counters[name] }
+
 // Flag records that a situation a vacuity guard asks for was exercised.
 func (c *Ctx) Flag(name string) { c.mu.Lock(); c.p.Flags[name] = true; c.mu.Unlock() }
 
